@@ -337,8 +337,9 @@ def _matches(k, prop, b, desc):
 
 
 class Verdict:
-    def __init__(self, prop):
+    def __init__(self, prop, own_kinds=()):
         self.prop = prop
+        self.own_kinds = set(own_kinds)   # scenario kinds whose every failed check counts for this property
         self.violations = []      # (label, replay path)
         self.known = []           # descriptions
         self.notes = []           # other-property labels seen
@@ -353,10 +354,12 @@ class Verdict:
             if b["label"].startswith("ANY:"):
                 # hangs, panics, unexplained driver states count against whatever is being explored
                 b = dict(b, label=own_prefix + b["label"][4:])
+            desc = _desc_of(b)
+            if not b["label"].startswith(own_prefix) and desc.get("kind") in self.own_kinds:
+                b = dict(b, label=own_prefix + b["label"].replace(":", "/"))
             if not b["label"].startswith(own_prefix):
                 self.notes.append("%s (scen %s)" % (b["label"], b.get("scen")))
                 continue
-            desc = _desc_of(b)
             k = next((k for k in known if _matches(k, self.prop, b, desc)), None)
             if k:
                 if k["what"] not in self.known:
